@@ -8,7 +8,7 @@ from vmc import core
 ID = "C18"
 RULE = (
     "every ordered list of at most L records over the alphabet id in {a,b} x contests subset of {c1,c2} (contents specific to "
-    "the record's position, so 'later wins' is observable) x phantom x pool x tally_pool in {None,P,Q}, grown record by "
+    "the record's position, so 'later wins' is observable) x phantom x pool x tally_pool in {None,P,Q,0}, grown record by "
     "record, on fresh CVR objects (merge mutates its input): one record per identifier in first-appearance order, contests "
     "= union with the later record winning inside a contest, phantom = all, pool a genuine True/False equal to any, tally "
     "pool the common value or ValueError on conflict.  RAIRE reader: every input with 1-2 declared contests and rows for "
@@ -21,13 +21,13 @@ PLAN = {"quick": {"full": 2, "reduced": 3}, "thorough": {"full": 3, "reduced": 4
 
 
 def bounds(tier):
-    return {"max list length, full alphabet (96 records)": PLAN[tier]["full"], "max list length, reduced alphabet": PLAN[tier]["reduced"]}
+    return {"max list length, full alphabet (128 records)": PLAN[tier]["full"], "max list length, reduced alphabet": PLAN[tier]["reduced"]}
 
 
 def alphabet(reduced=False):
     ids = ["a", "b"]
     cons = [(), ("c1",), ("c1", "c2")] if reduced else [(), ("c1",), ("c2",), ("c1", "c2")]
-    tps = [None, "P"] if reduced else [None, "P", "Q"]
+    tps = [None, "P", 0] if reduced else [None, "P", "Q", 0]  # 0 is a legitimate (falsy) pool label
     return [(i, c, ph, po, tp) for i in ids for c in cons for ph in (False, True) for po in (False, True) for tp in tps]
 
 
